@@ -46,6 +46,8 @@ pub struct Out {
     pub scope: Option<Scope>,
     /// the vocabulary, when parser events are recorded (they are translated into token kinds)
     pub vocab_for_events: Option<Vocab>,
+    /// when set: the input of the call about to be made is written here, so that a hang or an abort can be attributed to it
+    pub cur_file: Option<String>,
 }
 
 #[derive(Clone, Debug, Default)]
@@ -142,6 +144,7 @@ impl Out {
 
 /// one checked call: evaluate, record, compare with the expectation; returns the outcome
 pub fn checked_call(out: &mut Out, e: &str, input: &str, ph: &Val, exp: Option<&crate::expect::Exp>, claim: Value, nontrivial: bool, ctx: &Value) -> Outcome {
+    if let Some(f) = &out.cur_file { let _ = std::fs::write(f, input); }
     let t0 = std::time::Instant::now();
     let (o, t) = call(e, input, ph);
     // C02 "returns promptly": work that the step counters do not see (a loop without a tick).  A call normally takes microseconds;
